@@ -26,7 +26,7 @@ EXPLANATION = (
     "skeleton has a quantifier (R5).  The factory's one-shot shortcuts (is_sat, is_valid, is_unsat, get_model, "
     "get_implicant, get_unsat_core) are interpreted over recording probe solvers that declare partly incomparable "
     "logics: the logic a solver is created with enables every feature of every formula handed to it, also for "
-    "clause lists whose members have incomparable logics (R6).")
+    "clause lists whose members have incomparable logics (R6).  The logic a MaxSMT goal reports enables the features of its term after each extension of the goal (R7).")
 NOT_DECIDED = ["order axioms on theories that are not the theory of any named logic (arbitrary flag valuations)"]
 
 
